@@ -11,6 +11,7 @@ import (
 	"os"
 	"os/exec"
 	"path/filepath"
+	"sort"
 	"strconv"
 	"strings"
 	"sync"
@@ -172,7 +173,11 @@ func discharge(res *FuncResult, selected map[int]bool, timeoutMs int) {
 	}
 	script := batchScript(res, pending)
 	f := tmpFile("batch", script)
-	ctx, cancel := context.WithTimeout(context.Background(), time.Duration(timeoutMs*(len(pending)+2))*time.Millisecond)
+	budget := time.Duration(timeoutMs*(len(pending)+2)) * time.Millisecond
+	if budget > 90*time.Second {
+		budget = 90 * time.Second // per-function cap: obligations not reached stay undecided
+	}
+	ctx, cancel := context.WithTimeout(context.Background(), budget)
 	out, secs := runSolver(ctx, solvers[0], f, timeoutMs, true)
 	cancel()
 	os.Remove(f)
@@ -208,7 +213,17 @@ func discharge(res *FuncResult, selected map[int]bool, timeoutMs int) {
 			retry = append(retry, i)
 		}
 	}
-	// portfolio on the rest
+	// portfolio on the rest (capped per function: a function with many undecided obligations is not going to be claimed anyway)
+	sort.Ints(retry)
+	if len(retry) > 12 {
+		for _, i := range retry[12:] {
+			if res.Obls[i].Status == "unknown" || res.Obls[i].Status == "" {
+				res.Obls[i].Status = "unknown"
+				res.Obls[i].Output = "not retried: more than 12 undecided obligations in this function"
+			}
+		}
+		retry = retry[:12]
+	}
 	var wg sync.WaitGroup
 	for _, i := range retry {
 		wg.Add(1)
